@@ -267,6 +267,27 @@ func replaySQL(args []string) error {
 					rep.Mismatch(map[string]any{"kind": "sql-rows", "dsn": opt, "rows": ds.Rows, "query": texts[qi], "got": got, "want": want})
 				}
 			}
+			// a conjunction of 70 / 130 copies of one negated test means what the single negated test means (a long flat
+			// exclusion list is an ordinary query)
+			if len(qs) > 0 && (n+oi)%3 == 0 {
+				for qi, q := range qs {
+					if q.E.Op != "not" || len(q.GB) > 0 {
+						continue
+					}
+					one := safeQuery(db, texts[qi])
+					for _, width := range []int{70, 130} {
+						wide := &vx.Expr{Op: "and"}
+						for k := 0; k < width; k++ {
+							wide.Es = append(wide.Es, q.E)
+						}
+						rep.Steps++
+						if got := safeQuery(db, renderQuery(dict, vx.Query{E: wide})); !sameRows(got, one) {
+							rep.Mismatch(map[string]any{"kind": "sql-wide-exclusion-list", "dsn": opt, "rows": ds.Rows, "operand": texts[qi], "copies": width, "got": got, "want": one})
+						}
+					}
+					break
+				}
+			}
 			// two result sets of this handle read at the same time, in the step orders TLC enumerated (UpdogCursor)
 			if len(scheds) > 0 && len(ds.Rows) >= 2 {
 				for k := 0; k < 6; k++ {
@@ -426,6 +447,7 @@ func replayStmt(args []string) error {
 	defer os.RemoveAll(dir)
 	rep := &vx.Report{}
 	var db *sql.DB
+	stmtDSN := ""
 	allowed := func(got sqlRows, outs []vx.Res, gb []int) bool {
 		for _, o := range outs {
 			if sameRows(got, expectRows(dict, o, gb)) {
@@ -462,7 +484,8 @@ func replayStmt(args []string) error {
 			if err != nil {
 				return err
 			}
-			db, err = sql.Open("updog", "file:"+path+dsnOpts[int(*seed)%4])
+			stmtDSN = "file:" + path + dsnOpts[int(*seed)%4]
+			db, err = sql.Open("updog", stmtDSN)
 			return err
 		}
 		if ln.Tag != "tmpl" {
@@ -470,6 +493,17 @@ func replayStmt(args []string) error {
 		}
 		rep.Behaviours++
 		text := renderQuery(dict, vx.Query{E: ln.Tmpl, GB: ln.GB})
+		if rep.Behaviours%3 == 0 && stmtDSN != "" {
+			// the application closes its handle and opens the same data source again: texts used before mean the same
+			db.Close()
+			var oerr error
+			if db, oerr = sql.Open("updog", stmtDSN); oerr != nil {
+				return oerr
+			}
+			if rep.Behaviours%2 == 0 {
+				db.SetMaxIdleConns(0) // every use opens and closes a connection
+			}
+		}
 		// (a) one-shot path
 		for _, c := range ln.Cases {
 			rep.Steps++
@@ -741,6 +775,37 @@ func replaySQLHist(args []string) error {
 	})
 	if err != nil && err != errStopReplay {
 		return err
+	}
+	// a query the index rejects (a misspelt column), repeated: every attempt is answered with an error, none hangs
+	if !sawHang {
+		bad := renderQuery(dict, vx.Query{E: &vx.Expr{Op: "eq", Col: 4, Val: 1}})
+		badGB := renderQuery(dict, vx.Query{E: &vx.Expr{Op: "eq", Col: 2, Val: 1}, GB: []int{4}})
+		db, _ := sql.Open("updog", "file:"+paths[1]+optOf[1])
+	retry:
+		for _, q := range []string{bad, badGB} {
+			for attempt := 1; attempt <= 3; attempt++ {
+				rep.Steps++
+				o, _ := watchdog(15*time.Second, func() error {
+					rows, err := db.Query(q)
+					if err != nil {
+						return err
+					}
+					rows.Close()
+					return nil
+				})
+				if o != "err" {
+					rep.Mismatch(map[string]any{"kind": "sqlhist-repeated-failing-query", "query": q, "attempt": attempt, "got": o, "want": "err"})
+					sawHang = sawHang || o == "hang"
+					break retry
+				}
+			}
+		}
+		if !sawHang {
+			if o, _ := watchdog(10*time.Second, func() error { return db.Close() }); o == "hang" || !lockFree(paths[1]) {
+				rep.Mismatch(map[string]any{"kind": "sqlhist-repeated-failing-query", "got": "handle not released after failing queries: " + o})
+				sawHang = o == "hang"
+			}
+		}
 	}
 	// a data source whose file bbolt opens but that is not an index (an empty database, e.g. a placeholder created by a
 	// deployment script): every use fails in an orderly way, again and again, and the file is not kept locked
